@@ -51,6 +51,32 @@ CLAIMS = {
         design_ref="5/C17",
         note=TRUST + "; run-to-run byte equality itself is differential (processes, hash seeds), the theorem covers the logic that could break it",
         technique="Lean 4 proof (CLI->settings map, order-independence) + source inventory + differential byte comparison"),
+    "C03": dict(
+        category="proof",
+        text=("PARTIAL. Proved (C03_forest_enum, C03_by_index_is_all, C03_iteration_is_all): for EVERY well-formed SPPF shape the "
+              "weighted mixed-radix index decoding of Forest::get_tree / Tree::children / find_tree_root returns the i-th tree of the "
+              "canonical enumeration — each tree of the forest exactly once by index and by iteration — and None from solutions() on. "
+              "Tie A for that part: the real SPPF of every accepted input (runtime hook `verif`) is loaded into the Lean model and "
+              "solutions()/get_tree(i) compared. NOT proved: that the graph-structured-stack engine puts exactly the derivation "
+              "trees into the forest (Scott-Johnstone's paper proof); decided by an independent derivation counter/enumerator on "
+              "generated in-scope grammars x all strings up to a length bound: solutions() = number of derivation trees, every tree "
+              "valid modulo elided nullable tails, no tree twice, tree set = derivation set."),
+        design_ref="5/C03",
+        note=TRUST + "; GSS engine completeness/no-duplication is sampled, not proved; petgraph is not modelled",
+        technique="Lean 4 proof of forest enumeration over all SPPF shapes + SPPF-level correspondence + independent derivation enumerator"),
+    "C05": dict(
+        category="proof",
+        text=("The cell-level conflict-resolution algorithm (Lean transcription of calculate_reductions and max_prior_for_term, tied to "
+              "the real compiler by recomputing every cell and shift priority of every state of every generated table; the S/R decision "
+              "domain of 1728 combinations is exhaustive) equals the documented rule: C05_sr_matches_doc, C05_rr_matches_doc (all natural "
+              "priorities, associativities, settings, nops/nopse), C05_never_invents, C05_resolution_total, C05_shift_prio_is_max, "
+              "C05_cell_result / C05_order_independent (any number and order of candidates under PosOk/NoMixed). Proved for the code as "
+              "repaired by three fix: commits (terminal-level associativity inverted; assert abort on three-way conflicts; EMPTY/EMPTY "
+              "reductions silently evicted in LR) and proved false with replayed witnesses for the code as it was. The operator-grammar "
+              "corollary is decided on samples (all priority/assoc assignments x strings, real LR runtime vs precedence climbing)."),
+        design_ref="5/C05",
+        note=TRUST + "; operator-precedence corollary sampled; mixed left/right three-way cells are order dependent (C05_counterexample_order_mixed) and only required to be pairwise justified",
+        technique="Lean 4 proof (finite decision domain + lifting lemmas) + per-cell correspondence on real tables + documented-rule oracle"),
     "C13": dict(
         category="proof",
         text=("Theorems C13_position_after_append, C13_position_spec (position_after = 1 + newlines before / bytes since line start, "
